@@ -13,6 +13,12 @@ Layers
   B1  MeanPhenotypicBreedingValue.estimate on hand-built tables: row permutations x genotype
       taxon lists (permutations, subsets, unphenotyped taxa) x column variants
   B2  phenotype() -> estimate() pipeline with permuted genotype taxa; TrueBreedingValue
+  H   histories on ONE protocol object (G_E_Phenotyping and TruePhenotyping): phenotype(pgmat); then state changes
+      (model replaced through the setter / edited in place, genotype matrix relabelled / edited in place, variances,
+      nenv, nrep, rng changed through setters); phenotype(pgmat) again with the very same objects -> must be the
+      trial of the CURRENT data
+  B1/B2 tables carry every kind of row index (RangeIndex, permuted original labels, filtered subset, string labels,
+      duplicated labels): the estimate may depend on row content only
 """
 from __future__ import annotations
 import itertools
@@ -75,6 +81,13 @@ def shards(tier, seed):
     for n in (1, 2, 3, 4):
         for method in ("h2", "H2"):
             out.append(("P3", n, method))
+    for n in (1, 2, 3, 4):
+        for proto in ("GE", "TP"):
+            if T and proto == "GE":
+                for lv in R.LABVARS:
+                    out.append(("H", n, proto, lv))
+            else:
+                out.append(("H", n, proto, None))
     pats = R.count_patterns(6)
     for ci, c in enumerate(pats):
         Rw = sum(c)
@@ -122,6 +135,8 @@ def run_shard(spec, ctx):
         _shard_b1(ctx, spec[1], spec[2], spec[3])
     elif layer == "B2":
         _shard_b2(ctx, spec[1], spec[2], spec[3])
+    elif layer == "H":
+        _shard_h(ctx, spec[1], spec[2], spec[3])
 
 
 # ----------------------------------------------------------------------------
@@ -510,6 +525,39 @@ def Fraction_(x):
     return Fraction(x)
 
 
+TPS = "TruePhenotyping.phenotype:"
+
+
+def oracle_truepheno(df, pop, model, G, tp, P=TPS):
+    t = model.t
+    cols = [str(c) for c in df.columns]
+    require(cols.count("taxa") == 1, P + "columns", f"columns {cols}")
+    tcols = list(model.trait) if model.trait is not None else [c for c in df.columns if str(c) not in ("taxa", "taxa_grp")]
+    require(len(tcols) == t and all(c in df.columns for c in tcols), P + "columns", f"columns {cols} for traits {model.trait}")
+    require(len(df) == pop.n, P + "record-count", f"{len(df)} records for {pop.n} taxa")
+    names = df["taxa"].tolist()
+    if pop.taxa is not None:
+        require(sorted(names) == sorted(pop.taxa), P + "record-set", f"taxa {names} for population {pop.taxa}")
+        idx = [pop.taxa.index(nm) for nm in names]
+    else:
+        require(len(set(names)) == pop.n, P + "record-set", f"generated names {names}")
+        idx = None          # generated names: any naming is accepted, rows are matched by value below
+    if pop.grp is not None:
+        require("taxa_grp" in cols and df["taxa_grp"].tolist() == [pop.grp[i] for i in idx], P + "labels",
+                f"group labels {df['taxa_grp'].tolist() if 'taxa_grp' in cols else None} for taxa {names}, "
+                f"the taxa's groups are {[pop.grp[i] for i in idx]}")
+    else:
+        require("taxa_grp" not in cols or all(_isnull(g) for g in df["taxa_grp"].tolist()), P + "labels", "group labels invented")
+    got = [[df[c].tolist()[k] for c in tcols] for k in range(pop.n)]
+    if idx is None:
+        require(any(all(close(got[k], G[i]) for k, i in enumerate(perm)) for perm in itertools.permutations(range(pop.n))),
+                P + "not-truth", f"records {got} are not the true values {G} under any naming")
+    else:
+        for k, i in enumerate(idx):
+            require(close(got[k], G[i]), P + "not-truth", f"taxon {names[k]!r}: {got[k]!r}, true values {G[i]!r}")
+    require(close(tp.var_err, [0.0] * t), P + "var_err", f"var_err {tp.var_err!r}")
+
+
 def run_truepheno(ctx, case):
     from pybrops.breed.prot.pt.TruePhenotyping import TruePhenotyping
     seed = case["seed"]
@@ -517,7 +565,6 @@ def run_truepheno(ctx, case):
     pop = R.Pop(case["n"], case["labvar"], seed)
     model = R.Model(kind, t, named, seed)
     G = [[float(x) for x in row] for row in model.genotypic(pop)]
-    P = "TruePhenotyping.phenotype:"
     ctx.evaluations += 1
     box = {}
 
@@ -527,31 +574,7 @@ def run_truepheno(ctx, case):
         df = tp.phenotype(pg)
         ctx.transitions += 1
         box["df"] = df
-        cols = [str(c) for c in df.columns]
-        require(cols.count("taxa") == 1, P + "columns", f"columns {cols}")
-        tcols = list(model.trait) if model.trait is not None else [c for c in df.columns if str(c) not in ("taxa", "taxa_grp")]
-        require(len(tcols) == t and all(c in df.columns for c in tcols), P + "columns", f"columns {cols} for traits {model.trait}")
-        require(len(df) == pop.n, P + "record-count", f"{len(df)} records for {pop.n} taxa")
-        names = df["taxa"].tolist()
-        if pop.taxa is not None:
-            require(sorted(names) == sorted(pop.taxa), P + "record-set", f"taxa {names} for population {pop.taxa}")
-            idx = [pop.taxa.index(nm) for nm in names]
-        else:
-            require(len(set(names)) == pop.n, P + "record-set", f"generated names {names}")
-            idx = None          # generated names: any naming is accepted, rows are matched by value below
-        if pop.grp is not None:
-            require("taxa_grp" in cols and df["taxa_grp"].tolist() == [pop.grp[i] for i in idx], P + "labels",
-                    f"group labels {df['taxa_grp'].tolist() if 'taxa_grp' in cols else None} for taxa {names}")
-        else:
-            require("taxa_grp" not in cols or all(_isnull(g) for g in df["taxa_grp"].tolist()), P + "labels", "group labels invented")
-        got = [[df[c].tolist()[k] for c in tcols] for k in range(pop.n)]
-        if idx is None:
-            require(any(all(close(got[k], G[i]) for k, i in enumerate(perm)) for perm in itertools.permutations(range(pop.n))),
-                    P + "not-truth", f"records {got} are not the true values {G} under any naming")
-        else:
-            for k, i in enumerate(idx):
-                require(close(got[k], G[i]), P + "not-truth", f"taxon {names[k]!r}: {got[k]!r}, true values {G[i]!r}")
-        require(close(tp.var_err, [0.0] * t), P + "var_err", f"var_err {tp.var_err!r}")
+        oracle_truepheno(df, pop, model, G, tp)
 
     ok = ctx.guard(body, case=case, sig_prefix="TruePhenotyping:")
     ctx.state(digest(("TP", case["n"], case["labvar"], case["model"])))
@@ -560,6 +583,123 @@ def run_truepheno(ctx, case):
     if ok:
         ctx.traces += 1
     ctx.count("exec:TP")
+
+
+# ----------------------------------------------------------------------------
+# H: histories on one protocol object
+def _shard_h(ctx, n, proto, lv_only):
+    T = ctx.tier == "thorough"
+    ops = list(R.OPS_COMMON) + (list(R.OPS_GE) if proto == "GE" else [])
+    seqs = [[o] for o in ops]
+    if T:
+        seqs += [[a, b] for a in ops for b in ops if a != b and "none" not in (a, b)
+                 and not (a.split("-")[0] == b.split("-")[0] and a.split("-")[0] in ("taxa", "grp", "gpmod"))]
+    else:
+        seqs += [["gpmod-set", "taxa-set"], ["mat-inplace", "gpmod-edit-u"], ["taxa-inplace", "grp-set"]]
+    lays = ((1, 1), (2, [1, 2]), (1, 2))
+    vmenu = {1: ([[1.0], [4.0], [1.0]], [[0.0], [0.0], [0.0]], [[4.0], [0.0], [1.0]]),
+             2: ([[1.0, 4.0], [4.0, 1.0], [1.0, 1.0]], [[0.0, 0.0], [0.0, 0.0], [0.0, 0.0]], [[0.0, 4.0], [1.0, 0.0], [4.0, 0.0]])}
+    idx = 0
+    for lv in (R.LABVARS if lv_only is None else (lv_only,)):
+        for mi, (kind, t, named) in enumerate(R.MODELS):
+            for si, seq in enumerate(seqs):
+                if not all(R.op_applicable(o, R.Pop(n, lv, ctx.seed), None, proto) for o in seq):
+                    ctx.count("history-op-not-applicable")
+                    continue
+                if proto == "TP":
+                    idx += 1
+                    run_history(ctx, dict(layer="H", proto="TP", n=n, labvar=lv, model=[kind, t, named], ops=seq, seed=ctx.seed))
+                    continue
+                if T and len(seq) == 2:
+                    sel = [((si + mi) % 3, (si + mi + 1) % 3)]
+                elif T:
+                    sel = [(li, vi) for li in range(3) for vi in range(3)]
+                else:
+                    sel = [((si + mi) % 3, (si + mi + idx) % 3), ((si + mi + 1) % 3, 0)]
+                for li, vi in sel:
+                    idx += 1
+                    nenv, nrep = lays[li]
+                    run_history(ctx, dict(layer="H", proto="GE", n=n, labvar=lv, model=[kind, t, named], ops=seq, nenv=nenv,
+                                          nrep=nrep, var=vmenu[t][vi], form=idx % 4, tag=idx % 3,
+                                          rng="rs" if idx % 3 == 0 else "gen", seed=ctx.seed))
+
+
+def run_history(ctx, case):
+    """phenotype(pg); ops on the very same objects; phenotype(pg) again -> the trial of the current data."""
+    from pybrops.breed.prot.pt.G_E_Phenotyping import G_E_Phenotyping
+    from pybrops.breed.prot.pt.TruePhenotyping import TruePhenotyping
+    seed = case["seed"]
+    kind, t, named = case["model"]
+    proto = case["proto"]
+    pop = R.pop_copy(R.Pop(case["n"], case["labvar"], seed))
+    model = R.Model(kind, t, named, seed)
+    ctx.evaluations += 1
+    box = {}
+    st = dict(pop=pop, model=model)
+    handler = None
+    if proto == "GE":
+        order, s0, s1 = TAGVARS[case["tag"]]
+        handler = R.TagHandler(t, order=order, signs=[s0, s1][:t], expected=44)
+        nenv, nrep = case["nenv"], case["nrep"]
+        st.update(nenv=nenv, nrep_list=[nrep] * nenv if isinstance(nrep, int) else list(nrep), var=[list(v) for v in case["var"]],
+                  mkrng=lambda: _mk_rng(case["rng"], handler, seed))
+    sigp = "G_E_Phenotyping.phenotype:after-history:" if proto == "GE" else "TruePhenotyping.phenotype:after-history:"
+
+    def trial(phase):
+        df = st["pt"].phenotype(st["pg"])
+        ctx.transitions += 1
+        box["df"] = df
+        G = [[float(x) for x in row] for row in st["model"].genotypic(st["pop"])]
+        try:
+            if proto == "GE":
+                oracle_trial(ctx, df, st["pop"], st["model"], G, st["nrep_list"], st["var"], handler, phase)
+                oracle_untouched(st["pg"], st["pt"], st["pop"], st["nrep_list"], st["var"])
+            else:
+                oracle_truepheno(df, st["pop"], st["model"], G, st["pt"])
+        except Violation as v:
+            if phase == 0:
+                raise
+            # the same oracle, but the failure is specific to the history: name the call site accordingly
+            raise Violation(sigp + v.sig.split(":")[-1], f"after {case['ops']}: {v.detail}", v.case)
+
+    def body():
+        st["pg"] = R.build_pgmat(pop)
+        st["gm"] = model.build()
+        if proto == "GE":
+            form = case["form"]
+            st["pt"] = G_E_Phenotyping(gpmod=st["gm"], nenv=st["nenv"], nrep=R.nrep_argument(case["nrep"], form),
+                                       var_env=R.var_argument(st["var"][0], form), var_rep=R.var_argument(st["var"][1], form + 1),
+                                       var_err=R.var_argument(st["var"][2], form + 2), rng=st["mkrng"]())
+            handler.phase = 0
+        else:
+            st["pt"] = TruePhenotyping(st["gm"])
+        ctx.transitions += 1
+        trial(0)
+        for op in case["ops"]:
+            R.apply_op(op, st, seed)
+            ctx.transitions += 1
+        if proto == "GE":
+            handler.phase = 1
+        trial(1)
+
+    ok = ctx.guard(body, case=case, sig_prefix=("G_E_Phenotyping:" if proto == "GE" else "TruePhenotyping:") + "history:")
+    ctx.state(digest(("H", proto, case["n"], case["labvar"], case["model"], case["ops"], case.get("nenv"), case.get("nrep"),
+                      case.get("var"))))
+    if "df" in box:
+        ctx.outcome(digest(box["df"].to_numpy(dtype=object).tolist()))
+    if case["ops"] != ["none"]:
+        ctx.nontriv(digest(("H", case)))
+    if ok:
+        ctx.traces += 1
+    ctx.count(f"exec:H:{proto}")
+    for op in case["ops"]:
+        ctx.flag(f"history:{proto}:{op}")
+    if len(case["ops"]) == 2:
+        ctx.flag(f"history:{proto}:two-ops")
+    if proto == "GE" and case["n"] == 3 and case["labvar"] == "uns-grpdup" and case["ops"] == ["gpmod-set", "taxa-set"] \
+            and "df" in box and "sampled:H" not in ctx.flags:
+        ctx.flag("sampled:H")
+        ctx.sample(dict(case=case, second_table=box["df"].to_dict(orient="list")))
 
 
 # ----------------------------------------------------------------------------
@@ -615,8 +755,21 @@ def _shard_b1(ctx, counts, part, nparts):
                 for tv in tvs:
                     idx += 1
                     case = dict(layer="B1", counts=list(counts), order=order, gt=gt, gtgrp=(idx + gi) % 3, gtcls=idx % 2,
-                                grpcol=gc, traits=tv, alpha=(oi + tv) % 3, seed=seed)
+                                grpcol=gc, traits=tv, alpha=(oi + tv) % 3, index=R.INDEX_VARIANTS[idx % 5], seed=seed)
                     run_estimate(ctx, case)
+        # (d) the row-index alphabet: this row order with every kind of index
+        if Rw <= (5 if T else 4):
+            ivs, gsel2 = R.INDEX_VARIANTS, (oi % len(core), None)
+        elif Rw == 5 or T:
+            ivs, gsel2 = R.INDEX_VARIANTS, ((oi % len(core)) if oi % 3 else None,)
+        else:
+            ivs, gsel2 = (R.INDEX_VARIANTS[1 + oi % 4],), ((oi % len(core)) if oi % 3 else None,)
+        for iv in ivs:
+            for g2 in gsel2:
+                idx += 1
+                case = dict(layer="B1", counts=list(counts), order=order, gt=None if g2 is None else core[g2], gtgrp=idx % 3,
+                            gtcls=idx % 2, grpcol=GRPCOLS[(oi + idx) % 5], traits=(oi + idx) % 4, alpha=oi % 3, index=iv, seed=seed)
+                run_estimate(ctx, case)
     if part != 0:
         return
     ctx.flag("rows-all-orders" if full else "rows-transposition-closure")
@@ -627,42 +780,72 @@ def _shard_b1(ctx, counts, part, nparts):
             for gc in (("none", "col", "null") if T else (GRPCOLS[(gi + oi) % 5],)):
                 idx += 1
                 case = dict(layer="B1", counts=list(counts), order=order, gt=gt, gtgrp=(gi + oi) % 3, gtcls=gi % 2,
-                            grpcol=gc, traits=(gi + oi) % 4, alpha=gi % 3, seed=seed)
+                            grpcol=gc, traits=(gi + oi) % 4, alpha=gi % 3, index=R.INDEX_VARIANTS[(gi + oi) % 5], seed=seed)
                 run_estimate(ctx, case)
     # (c) constant tables (zero spread: the unit-scale shortcut of the breeding value matrix)
     for gi, gt in enumerate(core[:6] + [None]):
         for order in few[:2]:
             case = dict(layer="B1", counts=list(counts), order=order, gt=gt, gtgrp=gi % 3, gtcls=gi % 2,
-                        grpcol=GRPCOLS[gi % 2], traits=1, alpha=3, seed=seed)
+                        grpcol=GRPCOLS[gi % 2], traits=1, alpha=3, index=R.INDEX_VARIANTS[gi % 5], seed=seed)
             run_estimate(ctx, case)
 
 
 def _table(case):
-    """-> (DataFrame, rows[(name, grp, [v0, v1], env, rep)], taxa column, group column or None)."""
+    """-> (DataFrame, rows[(name, grp, [v0, v1], env, rep)], taxa column, group column or None).
+
+    case["index"] chooses the ROW INDEX the table carries (row content and row order are the same for all):
+      range   RangeIndex 0..R-1 in the final row order (a freshly built / reset_index'ed table)
+      perm    the base table's labels travelling with their rows (df.iloc[order] as is)
+      subset  rows filtered out of a larger table (junk records of the SAME taxa in between), labels kept
+      str     string labels
+      dup     duplicated labels
+    """
     s = case["seed"] % 3
     counts = case["counts"]
     base = R.base_rows(counts)
     alpha = case["alpha"]
+    ivar = case.get("index", "range")
     rows = []
     seen = {}
     for r, i in enumerate(base):
         seen[i] = seen.get(i, 0) + 1
         rows.append((R.NAMES[s][i], R.GRP_DUP[s][i], [R.record_value(r, 0, alpha), R.record_value(r, 1, alpha)], 1 + r % 2, seen[i]))
-    rows = [rows[k] for k in case["order"]]
     gc = case["grpcol"]
     tn = "line" if gc == "renamed" else "taxa"
     gn = "fam" if gc == "renamed" else "taxa_grp"
-    data = {tn: numpy.array([r[0] for r in rows], dtype=object)}
-    if gc in ("col", "ignored", "renamed"):
-        data[gn] = numpy.array([r[1] for r in rows], dtype="int64")
-    elif gc == "null":
-        data[gn] = None          # exactly what G_E_Phenotyping.phenotype emits for a population without group ids
-    data["env"] = numpy.array([r[3] for r in rows], dtype="int64")
-    data["rep"] = numpy.array([r[4] for r in rows], dtype="int64")
-    data["y1"] = numpy.array([r[2][0] for r in rows], dtype=float)
-    data["y2"] = numpy.array([r[2][1] for r in rows], dtype=float)
-    df = pandas.DataFrame(data)
-    return df, rows, tn, (gn if gc in ("col", "renamed", "null") else None)
+
+    def frame(rs, index=None):
+        data = {tn: numpy.array([r[0] for r in rs], dtype=object)}
+        if gc in ("col", "ignored", "renamed"):
+            data[gn] = numpy.array([r[1] for r in rs], dtype="int64")
+        elif gc == "null":
+            data[gn] = None          # exactly what G_E_Phenotyping.phenotype emits for a population without group ids
+        data["env"] = numpy.array([r[3] for r in rs], dtype="int64")
+        data["rep"] = numpy.array([r[4] for r in rs], dtype="int64")
+        data["y1"] = numpy.array([r[2][0] for r in rs], dtype=float)
+        data["y2"] = numpy.array([r[2][1] for r in rs], dtype=float)
+        return pandas.DataFrame(data, index=index)
+
+    order = case["order"]
+    ordered = [rows[k] for k in order]
+    if ivar == "range":
+        df = frame(ordered)
+    elif ivar == "perm":
+        df = frame(rows).iloc[order]
+    elif ivar == "subset":
+        big = []
+        for r in rows:          # a junk record of the same taxon (other environment, far-away values) after each real one
+            big.append(r)
+            big.append((r[0], r[1], [r[2][0] + 1e3, -r[2][1] - 1e3], 99, r[4]))
+        bdf = frame(big)
+        df = bdf[bdf["env"] != 99].iloc[order]
+    elif ivar == "str":
+        df = frame(rows, index=[f"r{len(rows) - 1 - k}" for k in range(len(rows))]).iloc[order]
+    elif ivar == "dup":
+        df = frame(rows, index=[k // 2 for k in range(len(rows))]).iloc[order]
+    else:
+        raise ValueError(ivar)
+    return df, ordered, tn, (gn if gc in ("col", "renamed", "null") else None)
 
 
 def run_estimate(ctx, case):
@@ -693,11 +876,26 @@ def run_estimate(ctx, case):
         if gobj is not None and case["gtgrp"] == 2:
             gobj.group_taxa()                       # a grouped genotype matrix: its order after grouping is "the order supplied"
             gt_eff, ggrp = gobj.taxa.tolist(), gobj.taxa_grp.tolist()
-        out = prot.estimate(df, gobj)
-        ctx.transitions += 1
-        box["out"] = out
         null = case["grpcol"] == "null"
-        oracle_estimate(out, gt_eff, ggrp, tlist, means, grp_of if (gn is not None and not null) else None, null, free_grp=null)
+        exp_grp = grp_of if (gn is not None and not null) else None
+        try:
+            out = prot.estimate(df, gobj)
+            ctx.transitions += 1
+            box["out"] = out
+            oracle_estimate(out, gt_eff, ggrp, tlist, means, exp_grp, null, free_grp=null)
+        except Exception as first:
+            # differential diagnosis: same rows, same order, default RangeIndex.  If that is right, the defect is a
+            # dependence on the row INDEX of the table (label-aligned join / concat), which gets its own signature
+            if case.get("index", "range") == "range":
+                raise
+            try:
+                out_r = prot.estimate(df.reset_index(drop=True), gobj)
+                oracle_estimate(out_r, gt_eff, ggrp, tlist, means, exp_grp, null, free_grp=null)
+            except Exception:
+                raise first
+            raise Violation(BV + "row-index-dependent",
+                            f"table with index {df.index.tolist()} ({case['index']}): {type(first).__name__}: {str(first)[:300]}; "
+                            f"the same rows in the same order under a RangeIndex give the right result")
         if gobj is not None:
             for fld in ("taxa_grp_name", "taxa_grp_stix", "taxa_grp_spix", "taxa_grp_len"):
                 require(same(getattr(out, fld), getattr(gobj, fld)), BV + "group-metadata",
@@ -713,7 +911,7 @@ def run_estimate(ctx, case):
                     f"row order {case['order']} gives taxa {out.taxa.tolist()}, the base order gives {out0.taxa.tolist()}")
 
     ok = ctx.guard(body, case=case, sig_prefix=BV)
-    cfg = digest(("B1", case["counts"], gt, case["gtgrp"], case["grpcol"], tv, case["alpha"]))
+    cfg = digest(("B1", case["counts"], gt, case["gtgrp"], case["grpcol"], tv, case["alpha"], case.get("index", "range")))
     ctx.state(cfg)
     if "out" in box:
         o = box["out"]
@@ -726,6 +924,9 @@ def run_estimate(ctx, case):
         ctx.traces += 1
     ctx.count("exec:B1")
     ctx.flag(f"grpcol:{case['grpcol']}")
+    ctx.flag(f"index:{case.get('index', 'range')}")
+    if case.get("index", "range") != "range" and case["order"] != sorted(case["order"]):
+        ctx.count("estimate-cases-with-permuted-non-default-index")
     ctx.flag(f"traits:{tv}")
     ctx.flag(f"alpha:{case['alpha']}")
     if gt is None:
@@ -816,7 +1017,8 @@ def _shard_b2(ctx, n, lv, mi_only):
                             idx += 1
                             case = dict(layer="B2", n=n, labvar=lv, model=[kind, t, named], nenv=nenv, nrep=nrep,
                                         var=[[1.0] * t, [4.0] * t, [1.0, 0.0][:t]], perm=list(perm), extra=extra, order=order,
-                                        nullcol=(lv == "uns-nogrp" and idx % 2 == 0), tag=idx % 3, seed=ctx.seed)
+                                        nullcol=(lv == "uns-nogrp" and idx % 2 == 0), tag=idx % 3, reset=bool(idx % 3 == 0),
+                                        seed=ctx.seed)
                             run_pipeline(ctx, case)
             for perm in perms:
                 for drop in (0, 1):
@@ -849,9 +1051,13 @@ def run_pipeline(ctx, case):
         df = pt.phenotype(R.build_pgmat(pop))
         ctx.transitions += 1
         require(len(df) == len(case["order"]), PT + "record-count", f"{len(df)} records, expected {len(case['order'])}")
-        df = df.iloc[case["order"]].reset_index(drop=True)
+        df = df.iloc[case["order"]]
+        if case.get("reset", True):
+            df = df.reset_index(drop=True)
         # reference: plain loops over the table that was produced
         rows = list(zip(df["taxa"].tolist(), zip(*[df[c].tolist() for c in model.trait])))
+        require(all(isinstance(x, float) and math.isfinite(x) for _, v in rows for x in v), PT + "value-not-finite",
+                "phenotype() produced a non-finite cell")
         means = R.taxon_means([(nm, list(v)) for nm, v in rows], list(range(t)))
         # genotype matrix: the same taxa permuted, plus unphenotyped ones
         q = pop.permuted(case["perm"])
@@ -869,10 +1075,23 @@ def run_pipeline(ctx, case):
             gcol = "taxa_grp"
         else:   # ungrouped population: name the (all-null) group column phenotype() emitted, if it emitted one
             gcol = "taxa_grp" if (case["nullcol"] and "taxa_grp" in df.columns) else None
-        out = MeanPhenotypicBreedingValue("taxa", gcol, list(model.trait)).estimate(df, gobj)
-        ctx.transitions += 1
-        box["out"] = out
-        oracle_estimate(out, gt, ggrp, list(model.trait), means, None, bool(case["nullcol"]), P=BV)
+        prot = MeanPhenotypicBreedingValue("taxa", gcol, list(model.trait))
+        try:
+            out = prot.estimate(df, gobj)
+            ctx.transitions += 1
+            box["out"] = out
+            oracle_estimate(out, gt, ggrp, list(model.trait), means, None, bool(case["nullcol"]), P=BV)
+        except Exception as first:
+            if case.get("reset", True):
+                raise
+            try:
+                oracle_estimate(prot.estimate(df.reset_index(drop=True), gobj), gt, ggrp, list(model.trait), means, None,
+                                bool(case["nullcol"]), P=BV)
+            except Exception:
+                raise first
+            raise Violation(BV + "row-index-dependent",
+                            f"phenotype() table re-ordered with iloc (index {df.index.tolist()}): {type(first).__name__}: "
+                            f"{str(first)[:300]}; after reset_index the result is right")
 
     ok = ctx.guard(body, case=case, sig_prefix=P)
     ctx.state(digest(("B2", case["n"], case["labvar"], case["model"], nenv, nrep, case["perm"], case["extra"], case["nullcol"])))
@@ -886,6 +1105,7 @@ def run_pipeline(ctx, case):
     if case["nullcol"]:
         ctx.flag("pipeline:null-group-column")
     ctx.flag(f"pipeline:extra{case['extra']}")
+    ctx.flag("pipeline:index-reset" if case.get("reset", True) else "pipeline:index-kept")
 
 
 def run_truebv(ctx, case):
@@ -922,7 +1142,7 @@ def run_truebv(ctx, case):
 # ----------------------------------------------------------------------------
 def finalize(ctx, tier, seed):
     f, c = ctx.flags, ctx.counters
-    for layer in ("P1", "P2", "P3", "TP", "B1", "B2", "TB", "two-call"):
+    for layer in ("P1", "P2", "P3", "TP", "B1", "B2", "TB", "two-call", "H:GE", "H:TP"):
         assert c.get(f"exec:{layer}", 0) > 0, f"no execution in layer {layer}"
     need = [f"labvar:{lv}" for lv in R.LABVARS]
     need += ["model:AL1", "model:AL2", "model:ADL1", "model:ADL2", "model:AL2-unnamed"]
@@ -938,11 +1158,16 @@ def finalize(ctx, tier, seed):
     need += ["gt:none", "gt:unphenotyped-taxon", "gt:phenotyped-taxon-absent", "gt:order-differs-from-groupby-order",
              "gt:only-unphenotyped", "gt:grouped", "gt:duplicated-taxon", "gtgrp:0", "gtgrp:1", "gtgrp:2", "gtcls:0", "gtcls:1",
              "rows-all-orders", "rows-transposition-closure", "rows:1", "rows:6", "rows:7", "rows:8",
-             "pipeline:null-group-column", "pipeline:extra0", "pipeline:extra1", "pipeline:extra2"]
+             "pipeline:null-group-column", "pipeline:extra0", "pipeline:extra1", "pipeline:extra2",
+             "pipeline:index-reset", "pipeline:index-kept"]
+    need += [f"index:{v}" for v in R.INDEX_VARIANTS]
+    need += [f"history:{p}:{o}" for p in ("GE", "TP") for o in R.OPS_COMMON] + [f"history:GE:{o}" for o in R.OPS_GE]
+    need += ["history:GE:two-ops", "history:TP:two-ops"]
     for x in need:
         assert x in f, f"alphabet element never exercised: {x}"
     assert c.get("heritability-cases:h2", 0) > 0 and c.get("heritability-cases:H2", 0) > 0
     assert c.get("draws-answered", 0) > 1000, c.get("draws-answered")
+    assert c.get("estimate-cases-with-permuted-non-default-index", 0) > 1000
     assert len(ctx.outcomes) > 500, len(ctx.outcomes)
     assert len(ctx.nontrivial) > 500, len(ctx.nontrivial)
 
@@ -959,5 +1184,7 @@ def replay(case, ctx):
         run_pipeline(ctx, case)
     elif layer == "TB":
         run_truebv(ctx, case)
+    elif layer == "H":
+        run_history(ctx, case)
     else:
         raise ValueError(layer)
